@@ -32,7 +32,7 @@ CLAIMED = {
        "a document tier: generated DTD+instance documents parsed validating/non-validating vs the executable Lean spec validDoc.",
   note="PARTIAL at document level: attribute/ID/IDREF/REQUIRED/FIXED/enumeration/root/DTD-level VCs are checked by correspondence against "
        "validDoc only (validate_iff_partial proves validDoc => declared + children in Lang + text rule); ENTITY/NOTATION types, standalone VCs, "
-       "external subset/PE VCs not modelled. No Gen tables: the tie is correspondence, not translation. Trusted: Lean kernel + "
+       "standalone-declaration VCs and external/split subsets are in validDoc and the document tier; PE-nesting VCs and ENTITY/NOTATION types not modelled. No Gen tables: the tie is correspondence, not translation. Trusted: Lean kernel + "
        "propext/Classical.choice/Quot.sound; XV.Spec.ContentModel and XV.Spec.DtdValid as transcribed; harness, generators and the Python XML renderer.",
   technique="Lean 4 proof over code-shaped models + exhaustive model/implementation/Spec correspondence",
   ref="4/C07"),
